@@ -255,6 +255,12 @@ class Runner:
         line = "c02-open %s (%s)" % (pre_s, " ".join(map(str, cshape)))
         self.cases.append((line, stored_sexp(c["a"].data.slice), {"shape": shape, "pre": pre, "what": "a.slice"}))
         self.cases.append((line, stored_sexp(c["g"].array.data.slice), {"shape": shape, "pre": pre, "what": "g.array.slice"}))
+        if len(c["g"].array.data.slice) < len(c["g"].maps):
+            # (a stored slice shorter than the rank is judged, not a harness error)
+            ctx.oracle_fail("the slice stored for a grid's array has fewer entries than the grid has maps",
+                            {"kind": "open", "shape": list(shape), "pre": pre}, stored_sexp(c["g"].array.data.slice),
+                            "one entry per dimension")
+            return
         for ax, (name, m) in enumerate(c["g"].maps.items()):
             st = c["g"].array.data.slice[ax]
             self.cases.append(("c02-open (%s) (%d)" % (sl_sexp(st) if st != slice(None) else "", cshape[ax]),
@@ -449,7 +455,13 @@ def dap4_case(ctx, cases, rng, shape, pre, idx, where):
     name, slices = proj[0][-1]
     cases.append(("c02-req %s (%s) %s" % (stored_sexp(stored), " ".join(map(str, cshape)), tup_sexp(t)),
                   canon_slices(slices), case))
-    got = src[slices]
+    try:
+        got = src[slices]
+    except IndexError as e:     # a request with more hyperslab groups than the rank: judged, not a harness error
+        ctx.oracle_fail("DAP4 proxy requests a hyperslab the source cannot take", case,
+                        {"request": unquote(url.split("?", 1)[1]), "numpy": "escaped:" + err_class(e)}, exp.tolist(),
+                        size=int(np.prod(shape)) + 10 * len(shape) + len(repr(idx)))
+        return
     if name.lstrip("/") != "a" or got.shape != exp.shape or not (got == exp).all():
         ctx.oracle_fail("DAP4 proxy requests other elements than numpy selects", case,
                         {"request": unquote(url.split("?", 1)[1]), "selects": got.tolist()}, exp.tolist(),
@@ -568,7 +580,7 @@ class Dap4E2E:
                         _, vals, crc_ok = D.decode_response(body, dtype, want.size)
                         if not crc_ok or vals.tolist() != want.reshape(-1).tolist():
                             raise RefServerBroken("%r: sent %r, numpy selects %r" % (query, vals.tolist(), want.tolist()))
-            except ValueError:
+            except (ValueError, IndexError):      # (IndexError: a request with more groups than the rank; judged below)
                 pass
         self.cases.append(("c02-req %s (%s) %s" % (stored_sexp(stored), " ".join(map(str, cshape)), tup_sexp(t)),
                            impl_req, case))
